@@ -10,23 +10,12 @@ CONSTANTS
   ResetHeights <- MC_ResetHeights
   MaxPub = 2
   MaxImp = 2
-  MaxAck = 1
+  MaxAck = 3
   MaxForeign = 1
   MaxReset = 1
-  MaxCrash = 2
-  MinWork = 0
-  Controlled = FALSE
+  MaxCrash = 1
+  MinWork = 1
+  Controlled = TRUE
 INVARIANTS
-  TypeOK
-  LocksConsistent
-  StoredIsAssociated
-  LogsContiguous
-  CursorIsMaxOfAcked
-  OnlyOwnTopicAcked
-  ReplayExact
-  ReplayQueueCoversExpect
-PROPERTIES
-  MC_CursorMonotone
-  MC_ForeignTopicRejected
-VIEW NoHistView
+  Export
 CHECK_DEADLOCK FALSE
